@@ -12,7 +12,10 @@ ZYG = os.path.join(VERIF, 'dsim', 'zygote.py')
 def _env(hashseed):
     e = dict(os.environ)
     e.update(PYTHONHASHSEED=str(hashseed), OPENBLAS_NUM_THREADS='1', OMP_NUM_THREADS='1', MKL_NUM_THREADS='1',
-             PYTHONWARNINGS='ignore', PYTHONDONTWRITEBYTECODE='1')
+             PYTHONWARNINGS='ignore', PYTHONDONTWRITEBYTECODE='1',
+             # glibc heap checking: an out-of-bounds write by a compiled kernel aborts at the next free() instead
+             # of silently corrupting the heap, and fresh/freed memory holds a fixed byte pattern (repeatable)
+             MALLOC_CHECK_='3', MALLOC_PERTURB_='165')
     return e
 
 
